@@ -33,7 +33,7 @@ OnToken(p, lo, hi) == p >= lo /\ (p < hi \/ p = lo)
 
 TReset ==
   /\ IsEv("reset")
-  /\ active' = (R.kind = "parser" /\ R.parser \in Aiger /\ ~R.faulty /\ ~R.long)
+  /\ active' = (R.kind = "parser" /\ R.parser \in Aiger /\ ~R.faulty /\ ~R.long /\ R.pre = 0)
   /\ vis' = (IF R.kind = "parser" /\ R.parser \in Aiger THEN R.input ELSE <<>>)
   /\ binary' = (R.kind = "parser" /\ R.parser \in {"aig", "aig_parse", "aig_skip"})
   /\ stream' = (IF R.kind = "parser" /\ R.parser \in {"aag", "aig"} THEN "all"
